@@ -2,8 +2,8 @@
 import ast
 import struct
 
-from ..astutil import dotted, method_call
-from ..cfg import cfg_of, fact_key, norm, walk_own
+from ..astutil import aug_form, dotted, method_call
+from ..cfg import canon_test, cfg_of, fact_key, norm, walk_own
 from ..consteval import Scope, fold_in
 from ..mutate import B, M
 from ..symexpr import canon
@@ -68,7 +68,7 @@ def check(ctx):
     ok = len(rf) == 1 and fact_key('retry_counter < 0', True) in gw.fact_keys_at(rf[0])
     ctx.inst('R2', wf, 'false-when-budget-exhausted', ok, 'write_flash returns False when no valid reply arrived within the retry budget')
     rs = [n for n in rets if n not in rf]
-    ok = len(rs) == 1 and norm(rs[0].ast.value) == 'pk.data[2] == 1' and fact_key('retry_counter < 0', False) in gw.fact_keys_at(rs[0])
+    ok = len(rs) == 1 and canon_test(rs[0].ast.value) == fact_key('pk.data[2] == 1')[0] and fact_key('retry_counter < 0', False) in gw.fact_keys_at(rs[0])
     ctx.inst('R2', wf, 'status-comparison', ok, 'otherwise the device status byte decides (data[2] == 1)')
     pk = [c for c in walk_own(wf.node) if isinstance(c, ast.Call) and dotted(c.func) == 'struct.pack']
     ok = len(pk) == 1 and [norm(a) for a in pk[0].args] == ["'<BBHHH'", wf.params[1], '24', wf.params[2], wf.params[3], wf.params[4]]
@@ -80,13 +80,13 @@ def check(ctx):
         loops = [w for w in walk_own(fx.node) if isinstance(w, ast.While) and 'retry_counter' in norm(w.test)]
         ctx.need(len(loops) == 1, '%s: retry loop not found' % fn)
         w = loops[0]
-        conj = [norm(v) for v in w.test.values] if isinstance(w.test, ast.BoolOp) and isinstance(w.test.op, ast.And) else [norm(w.test)]
-        ctx.inst('R3', fx, 'bounded-condition', 'retry_counter >= 0' in conj, 'the loop condition must contain the conjunct retry_counter >= 0; condition %s' % conj)
-        dec = [s for s in w.body if isinstance(s, ast.AugAssign) and norm(s.target) == 'retry_counter' and isinstance(s.op, ast.Sub) and fold_in(fx, s.value) == 1]
+        conj = [canon_test(v) for v in w.test.values] if isinstance(w.test, ast.BoolOp) and isinstance(w.test.op, ast.And) else [canon_test(w.test)]
+        ctx.inst('R3', fx, 'bounded-condition', canon_test(ast.parse('retry_counter >= 0', mode='eval').body) in conj, 'the loop condition must contain the conjunct retry_counter >= 0; condition %s' % conj)
+        dec = [s for s in w.body if aug_form(s) and aug_form(s)[0] == 'retry_counter' and aug_form(s)[1] is ast.Sub and fold_in(fx, aug_form(s)[2]) == 1]
         alld = [s for s in walk_own(w) if isinstance(s, (ast.AugAssign, ast.Assign)) and norm(s.targets[0] if isinstance(s, ast.Assign) else s.target) == 'retry_counter']
         esc = [x for x in walk_own(w) if isinstance(x, ast.Continue)]
         ctx.inst('R3', fx, 'decrement-once-per-iteration', len(dec) == 1 and len(alld) == 1 and not esc, 'every iteration decrements the counter exactly once (top level of the body, no continue)')
-        init = [s for s in walk_own(fx.node) if isinstance(s, ast.Assign) and norm(s.targets[0]) == 'retry_counter']
+        init = [s for s in walk_own(fx.node) if isinstance(s, ast.Assign) and norm(s.targets[0]) == 'retry_counter' and not aug_form(s)]
         ctx.inst('R3', fx, 'initial-budget', len(init) == 1 and fold_in(fx, init[0].value) == 5, 'retry budget starts at 5 (at most 6 attempts)')
 
     # ---- R4 / R5: upload_buffer ---------------------------------------------------------
@@ -98,11 +98,21 @@ def check(ctx):
     fl = [i for i in walk_own(ub.node) if isinstance(i, ast.If) and 'count' in norm(i.test)]
     ctx.need(len(fl) == 1, 'upload_buffer: flush test not found')
     thr = fl[0].test
-    ok = len(fmts) == 1 and isinstance(thr, ast.Compare) and isinstance(thr.ops[0], (ast.Gt, ast.GtE))
+    ok = len(fmts) == 1 and isinstance(thr, ast.Compare) and len(thr.ops) == 1
     nbytes = None
     if ok:
-        k = fold_in(ub, thr.comparators[0])
-        nbytes = k + 1 if isinstance(thr.ops[0], ast.Gt) else k
+        # count > k  /  k < count  /  count >= k ...
+        from ..cfg import implied
+        fct = implied(thr, True)[0]
+        ok = fct.op == '<' and (norm(fct.right) == 'count' or norm(fct.left) == 'count')
+    if ok:
+        if norm(fct.right) == 'count':       # k < count (pol True)  /  not (k < count) is impossible here
+            k = fold_in(ub, fct.left)
+            nbytes = k + 1 if fct.pol else None
+        else:                               # not (count < k)  ==  count >= k
+            k = fold_in(ub, fct.right)
+            nbytes = k if not fct.pol else None
+        ok = nbytes is not None
         hs = struct.calcsize(sorted(fmts)[0])
         ok = hs + nbytes <= 31
     ctx.inst('R4', ub, 'packet-size', ok, 'header %s + %s data bytes must fit 31 bytes' % (sorted(fmts), nbytes))
@@ -117,9 +127,9 @@ def check(ctx):
     ctx.inst('R5', ub, 'next-packet-address', nxt == canon(ast.parse('%s + %s + 1' % (a, iv), mode='eval').body, scu), 'address of the next packet is %s, expected %s + %s + 1' % (nxt, a, iv))
     ok = len(lp) == 1 and norm(lp[0].iter) in ('range(0, len(%s))' % b, 'range(len(%s))' % b) and any(method_call(c, 'append') and norm(c.args[0]) == '%s[%s]' % (b, iv) for c in walk_own(lp[0]))
     ctx.inst('R5', ub, 'every-byte-once-in-order', ok, 'bytes buff[0..len) are appended once each, in order')
-    cnt = [s for s in lp[0].body if isinstance(s, ast.AugAssign) and norm(s.target) == 'count'] if lp else []
-    rs = [s for s in walk_own(fl[0]) if isinstance(s, ast.Assign) and norm(s.targets[0]) == 'count']
-    ctx.inst('R5', ub, 'count-bookkeeping', len(cnt) == 1 and fold_in(ub, cnt[0].value) == 1 and len(rs) == 1 and fold_in(ub, rs[0].value) == 0, 'count += 1 per byte, reset to 0 at each flush')
+    cnt = [s for s in lp[0].body if aug_form(s) and aug_form(s)[0] == 'count'] if lp else []
+    rs = [s for s in walk_own(fl[0]) if isinstance(s, ast.Assign) and norm(s.targets[0]) == 'count' and not aug_form(s)]
+    ctx.inst('R5', ub, 'count-bookkeeping', len(cnt) == 1 and aug_form(cnt[0])[1] is ast.Add and fold_in(ub, aug_form(cnt[0])[2]) == 1 and len(rs) == 1 and fold_in(ub, rs[0].value) == 0, 'count += 1 per byte, reset to 0 at each flush')
     sends = [c for c in walk_own(ub.node) if method_call(c, 'send_packet')]
     ctx.inst('R5', ub, 'final-flush', len(sends) == 2 and any(isinstance(s, ast.Expr) and s.value is sends[-1] for s in ub.node.body), 'the last (partial) packet is sent after the loop')
 
@@ -160,14 +170,14 @@ def check(ctx):
     cs = sorted([n for n in g.nodes if n.kind == 'stmt' and isinstance(n.ast, (ast.Assign, ast.AugAssign)) and norm(n.ast.targets[0] if isinstance(n.ast, ast.Assign) else n.ast.target) == 'ctr'], key=lambda n: n.line)
     ctx.need(len(cs) >= 2, '_internal_flash: ctr init / increment expected, found %d stores' % len(cs))
     ctx.inst('R6', f, 'ctr-starts-0', isinstance(cs[0].ast, ast.Assign) and fold_in(f, cs[0].ast.value) == 0 and g.dominates(cs[0], L), 'ctr = 0 before the page loop')
-    incs = [n for n in cs if isinstance(n.ast, ast.AugAssign)]
+    incs = [n for n in cs if aug_form(n.ast)]
     ok = len(incs) == 1
     if ok:
         inc = incs[0]
-        ok = isinstance(inc.ast.op, ast.Add) and fold_in(f, inc.ast.value) == 1 and inc.id in body and g.path_avoiding(L, [in_loop[0][0]], avoid=[inc]) is None
+        ok = aug_form(inc.ast)[1] is ast.Add and fold_in(f, aug_form(inc.ast)[2]) == 1 and inc.id in body and g.path_avoiding(L, [in_loop[0][0]], avoid=[inc]) is None
     ctx.inst('R6', f, 'ctr-increments-per-page', ok, 'ctr += 1 after each uploaded page, before the flush test')
     ctx.inst('R6', f, 'flush-when-buffers-full', fact_key('ctr >= t_data.buffer_pages', True) in g.fact_keys_at(in_loop[0][0]), 'a batch is written when ctr >= buffer_pages')
-    resets = [n for n in cs[1:] if isinstance(n.ast, ast.Assign)]
+    resets = [n for n in cs[1:] if isinstance(n.ast, ast.Assign) and not aug_form(n.ast)]
     okr = len(resets) == 1
     if okr:
         rs = resets[0]
